@@ -31,10 +31,16 @@ Theorem c03_app_unlocked : forall f : flags, f "locked" = false ->
   Forall (fun s => match snd s with Some r => r_lock r = NoLock | None => False end) (started f app_serves_src).
 Proof. exact app_unlocked. Qed.
 
+(* both ports get the same protocol list, server loop and handler constructors: -chunked selects
+   the chunked L1 handler (and, above, the single-reader lock set), L2 is a direct handler *)
+Theorem c03_app_handlers : forall f : flags, started_with f app_serves_src = app_expected_with f.
+Proof. exact app_handlers_src. Qed.
+Print Assumptions c03_app_handlers.
+
 (* non-vacuity: the evaluation distinguishes a batch port with a lock set of its own *)
 Example c03_app_nonvacuous :
   let f : flags := fun s => if (s =? "locked") || (s =? "l2enabled") || (s =? "multiReader") then true else false in
-  let own := [mkServe BTrue (LTcp "port") (OLocked 1 (OBase "L1L2") BTrue "c") "h1" "h2";
-              mkServe BTrue (LTcp "batchPort") (OLocked 2 (OBase "L1L2Batch") BTrue "c") "h1" "h2"] in
+  let own := [mkServe BTrue (LTcp "port") (PsList []) "" (OLocked 1 (OBase "L1L2") BTrue "c") HUnset HUnset;
+              mkServe BTrue (LTcp "batchPort") (PsList []) "" (OLocked 2 (OBase "L1L2Batch") BTrue "c") HUnset HUnset] in
   started f own <> app_expected f /\ started f app_serves_src = app_expected f.
 Proof. split; [vm_compute; discriminate | apply app_wiring_src]. Qed.
